@@ -109,6 +109,22 @@ ExportOnlyPanics ==
     (last.op \in {"seal", "open"} /\ ctx[last.c].suite[3] = AEAD_EXPORT /\ ~last.pre.ovf
        /\ ~(last.op = "open" /\ last.form = "alloc" /\ FALSE)) => last.kind = "panic"
 
+(***************************************************************************)
+(* The per-call properties above talk about `last`.  Models hide `last`    *)
+(* from the state fingerprint (VIEW CoreView), so they are asserted on     *)
+(* every generated TRANSITION from an ACTION_CONSTRAINT instead of being   *)
+(* evaluated as invariants on every distinct state.                        *)
+(***************************************************************************)
+CheckLast ==
+    /\ Assert(AdvanceByOne', "AdvanceByOne")
+    /\ Assert(DeadAfterLimit', "DeadAfterLimit")
+    /\ Assert(LiveBeforeLimit', "LiveBeforeLimit")
+    /\ Assert(FailureIsStutter', "FailureIsStutter")
+    /\ Assert(TamperedRejected', "TamperedRejected")
+    /\ Assert(VerbatimDecision', "VerbatimDecision")
+    /\ Assert(ExportIsPure', "ExportIsPure")
+    /\ Assert(ExportOnlyPanics', "ExportOnlyPanics")
+
 (************** C07 / C08: key material is shared iff parameters agree ******)
 KeyMat(c) == <<ctx[c].key, ctx[c].bn, ctx[c].exp>>
 SharesAny(a, b) == \/ (ctx[a].key = ctx[b].key /\ ctx[a].key # <<>>)
